@@ -272,6 +272,12 @@ pub fn run(desc: &Value, ctx: &Ctx) -> CaseOut {
             return out;
         }
         Ok(Err(e)) => {
+            let models: Vec<Vec<EntryModel>> = (0..case.stores.len()).map(|si| expand(&case, si)).collect();
+            if representable(&case, &models).0 != Repr::Yes {
+                // too many distinct keys for one indexed value store tail: refusing is the specified behaviour (C02)
+                out.obs.inc("unrepresentable_inputs_refused");
+                return out;
+            }
             out.violate(json!({"kind": "create-error", "message": util::normalize_msg(&e), "profile": profile()}), format!("C03: creation of a sorted store with unique keys failed: {e}"), json!({}));
             return out;
         }
